@@ -48,6 +48,10 @@ Rewrite rules (each application is counted per function and reported in the evid
       undeclared literal in such a unit is an extraction error (undecided), so a changed format string cannot pass unnoticed
   R20 `for (i, PAT) in EXPR.enumerate() { BODY }` -> `let mut i: usize = 0; for PAT in EXPR { BODY i += 1; }`: the counter of
       `enumerate` becomes an explicit counter incremented at the end of the body (only for bodies without continue/break/return)
+  R21 `//@ seam: "FROM" => "TO"` (inside a //@fn block): a declared substitution of an iterator expression or `impl Iterator`
+      parameter by a seam object of the unit (e.g. `bytes.iter().cloned()` -> `&mut ByteSrc::cloned(bytes)`, whose assumed
+      contract says which items the adapter chain yields). FROM must occur exactly once in header + body, else the function
+      is stubbed (undecided); every pair is listed in the evidence. Nothing but the item source changes
   R18 `| where K: Ord`: a supertrait bound of the real trait (`Kmer: ... + Ord`) that the Verus-side seam trait does not carry
       is restated on the extracted function as a where clause (no executable effect)
   R15 `//@stmts file | container | fn | from "a" | to "b"`: a contiguous statement range of a function body
@@ -735,7 +739,7 @@ def parse_block(lines):
     spec = []
     cur = None
     for ln in lines:
-        m = re.match(r"^\s*(spec|loop \d+(?: iter \w+)?|closure \d+(?: params \(.*?\)(?=:(?:\s|$)))?|hint [^:]*?):\s?(.*)$", ln)
+        m = re.match(r"^\s*(spec|seam|loop \d+(?: iter \w+)?|closure \d+(?: params \(.*?\)(?=:(?:\s|$)))?|hint [^:]*?):\s?(.*)$", ln)
         starts_new = False
         if m:
             head = m.group(1)
@@ -749,6 +753,8 @@ def parse_block(lines):
         if starts_new:
             if head == "spec":
                 cur = ("spec", None, [rest])
+            elif head == "seam":
+                cur = ("seam", None, [rest])
             elif head.startswith("loop"):
                 hp = head.split()
                 cur = ("loop", hp[1] + ("|" + hp[3] if len(hp) > 3 else ""), [rest])
@@ -1016,8 +1022,28 @@ def process(template_path, repo, meta, twin=None, stub=()):
                     body = re.sub(pat, am.group(2).strip(), body)
                     counts["R8"] = counts.get("R8", 0) + 1
         stub_reason = None
+        # R21: declared seam substitutions (`//@ seam: "FROM" => "TO"`): each FROM must occur exactly once in header + body
+        seams = [sc for sc in sections if sc[0] == "seam"]
+        sections = [sc for sc in sections if sc[0] != "seam"]
+        seam_err = None
+        for _, _, txt in seams:
+            for sl in [x for x in txt.split("\n") if x.strip()]:
+                ms = re.match(r'^\s*"((?:[^"\\]|\\.)*)"\s*=>\s*"((?:[^"\\]|\\.)*)"\s*$', sl)
+                if not ms:
+                    raise ExtractError("%s: malformed seam line: %s" % (name, sl))
+                frm, to = ms.group(1).replace('\\"', '"'), ms.group(2).replace('\\"', '"')
+                n_occ = sig.count(frm) + body.count(frm)
+                if n_occ != 1:
+                    seam_err = "seam text %r occurs %d times in %s (expected exactly 1)" % (frm, n_occ, name)
+                    break
+                sig = sig.replace(frm, to)
+                body = body.replace(frm, to)
+                counts["R21"] = counts.get("R21", 0) + 1
+                counts.setdefault("R21_text", []).append([frm, to])
         key = new_name + "@" + container
-        if key in stub:
+        if seam_err is not None:
+            stub_reason = "extraction: " + seam_err
+        elif key in stub:
             stub_reason = "the Verus front end rejects the current body of this function"
         else:
             try:
